@@ -200,7 +200,7 @@ static SPECS: &[PropertySpec] = &[
         scenario: props::c14::scenario,
         level: "exploration",
         rule: "the full matrix {chain to added root, self-signed, unknown issuer, expired} x {name matches, differs} x accept_invalid_certs x accept_invalid_hostnames x root {none, the fixtures' CA, an unrelated CA after another session that added the fixtures' CA completed a handshake with the same flags} x {direct, via CONNECT, https proxy} x flag placed on {session, request, sibling request, request overriding a session that waives both checks} = 1152 cells, walked completely by run index (exhaustive for the matrix; each cell repeated under different scheduler/aux seeds); peers are rustls ServerConnection state machines driven by the kernel; the client handshake runs over the library's own BaseStream; distinct = matrix cell; every cell non-trivial",
-        quick_runs: 2304,
+        quick_runs: 3840,
         matrix_cells: props::c14::CELLS,
         thorough_runs: 1152 * 120,
         real_components: TLS_REAL,
